@@ -131,6 +131,19 @@ Theorem C06_verifying_verify_empties_cache : forall W call ops r, wf_hist Verify
 Proof. exact verifying_verify_empties_hist. Qed.
 Print Assumptions C06_verifying_verify_empties_cache.
 
+(* generations: in every reachable state no operation ever lowers the generation of any registry,
+   and the registry an operation changes (__bases__ assigned, an effective registration /
+   subscription change, rebuild()) gets a strictly larger one — what the equality test of the
+   verifying flavour's generation snapshots relies on *)
+Theorem C06_generations_strictly_increase : forall W call fl ops o, wf_hist fl 0 (ops ++ [o]) = true ->
+  (forall i, generation (rs_reg (get (final W call [] ops) i)) <=
+             generation (rs_reg (get (final W call [] (ops ++ [o])) i))) /\
+  (forall m, bump_target W (final W call [] ops) o = Some m ->
+             generation (rs_reg (get (final W call [] ops) m)) <
+             generation (rs_reg (get (final W call [] (ops ++ [o])) m))).
+Proof. exact generations_strictly_increase_hist. Qed.
+Print Assumptions C06_generations_strictly_increase.
+
 (* ------------------------------------------------------------------ the tie to the source text
    Gen/RegChainKernel.v is regenerated on every run from /repo/src/zope/interface/adapter.py by the
    fail-closed translator harness/translate/regchain.py (g_* = the translated methods, composed
